@@ -72,6 +72,9 @@ func checkC11(c *Ctx) {
 		relevant := o.Status == "discharged" || o.What == "evict-without-breach" || o.What == "stale-memstats" || o.What == "evict-called-directly"
 		return "R11.6", relevant
 	})
+	// the scan may be skipped while expirationsSet is 0 only because every expiry a Write stores was handed out by Trait.TTL, which
+	// counts it: an expiry computed beside Trait.TTL (the value's own TTL, …) is never scanned for in an UnlimitedTTL cache (C10 R10.3)
+	c.borrowKinds("C10", func() { c.c10ExpireAt() }, "R11.3", "backends.Write:expiry-through-Trait.TTL", []string{"R10.3"}, "stored-E", "no-ttl")
 }
 
 func cleanupPolicy() pw.Policy {
